@@ -26,7 +26,8 @@ def findGreedyLoopC (cp : Bytes) : Nat → Nat → Bytes → P Bytes
     | none => .ok s
     | some k => sliceTo s k >>= fun s' => findGreedyLoopC cp i sc s'
 
-/-- path.go `findParamLen`: `s[:segment.Length]`, `segment.ComparePart[0]`, `s[:constPosition]` -/
+/-- path.go `findParamLen` on the locals `comparePart, partCount` (= the fields of `seg`):
+    `s[:segment.Length]`, `comparePart[0]`, `s[:constPosition]` -/
 def findParamLenC (s : Bytes) (seg : C02.Seg) : P Int :=
   if seg.isLast then .ok (C02.findParamLenForLastSegment s seg)
   else if seg.length ≠ 0 ∧ s.length ≥ seg.length then
@@ -46,6 +47,31 @@ def findParamLenC (s : Bytes) (seg : C02.Seg) : P Int :=
       ((if !seg.isGreedy then sliceTo s constPosition >>= fun pre => .ok (decide (indexByteI pre 47 ≠ -1)) else .ok false) : P Bool) >>= fun slash =>
       .ok (if slash then 0 else constPosition)
     else .ok (s.length : Int)
+
+/-- path.go `findParamLen`, the locals `comparePart, partCount, full` (fix "a parameter in front of
+    a constant with trailing slashes ends at that constant in full when the path holds it"):
+    `following[0]` behind `len(following) > 0`. `some seg'` = replaced (`full`), as `C02.fullConst`. -/
+def fullConstC (s : Bytes) (seg : C02.Seg) (following : List C02.Seg) : P (Option C02.Seg) :=
+  if following.length > 0 then
+    idxL following 0 >>= fun n =>
+    .ok (if n.const.length > seg.comparePart.length ∧ indexOfI s n.const ≠ -1 then
+      some { seg with comparePart := n.const, partCount := C02.partCountOf n.const following }
+    else none)
+  else .ok none
+
+/-- path.go `findParamLen(s, segment, following)`: the two early returns, then the locals; with the
+    full constant a greedy parameter always takes the right-to-left loop (`searchCount > 1 || full`),
+    everything else is `findParamLenC` on the locals (as `C02.paramLen`). -/
+def paramLenC (s : Bytes) (seg : C02.Seg) (following : List C02.Seg) : P Int :=
+  if seg.isLast ∨ (seg.length ≠ 0 ∧ s.length ≥ seg.length) then findParamLenC s seg
+  else
+    fullConstC s seg following >>= fun fc =>
+    match fc with
+    | none => findParamLenC s seg
+    | some seg' =>
+      if seg.isGreedy then
+        findGreedyLoopC seg'.comparePart seg'.partCount (C02.count s seg'.comparePart) s >>= fun r => .ok (r.length : Int)
+      else findParamLenC s seg'
 
 /-- `if partLen > 0 { detectionPath, path = detectionPath[i:], path[i:] }` -/
 def advance (det path : Bytes) (i : Int) : P (Bytes × Bytes) :=
@@ -71,7 +97,7 @@ def getMatchC (chk : C02.Constraint → Bytes → Bool) : List C02.Seg → Bytes
         if !same then .ok none
         else advance det path i >>= fun (d, p) => getMatchC chk rest d p partialCheck it
     else
-      findParamLenC det seg >>= fun i =>
+      paramLenC det seg rest >>= fun i =>              -- `parser.segs[idx+1:]` = the tail behind the range loop's element
       if !seg.isOptional ∧ i = 0 then .ok none
       else if it ≥ maxParams then .ok none          -- `paramsIterator >= len(params)`
       else
